@@ -92,6 +92,10 @@ class YowNetworkLayer(YowLayer, ConnectionCallbacks):
         self._dispatcher.connect(endpoint)
 
     def destroyConnection(self, reason=None):
+        if self.state == self.__class__.STATE_DISCONNECTED:
+            # nothing to destroy; in particular do not announce "disconnected" a second time
+            logger.debug("destroyConnection while already disconnected, ignoring")
+            return
         self._disconnect_reason = reason
         self.state = self.__class__.STATE_DISCONNECTING
         self._dispatcher.disconnect()
